@@ -55,7 +55,7 @@ META = {
             "independent by at least one view and both orders ran to completion (distinct by program, state and pair)",
     "assumptions": ["a transition is identified by (actor, times_considered), as in the checker's replay and sleep sets",
                     "states equal up to a renaming of comm ids are the same state"],
-    "ready": False,
+    "ready": True,
 }
 
 # ----------------------------------------------------------------------------------------------------------------------
